@@ -15,10 +15,10 @@ Cfg(seed, loc, pre, order, proc, cache) == [seed |-> seed, loc |-> loc, pre |-> 
 QuickPlan == <<
     Cfg("0",      "A", "none",      "natural",  "sub",    "cold"),
     Cfg("1",      "A", "stale",     "natural",  "sub",    "warm"),
-    Cfg("2",      "B", "none",      "reversed", "sub",    "warm"),
+    Cfg("2",      "B", "none",      "reversed", "inproc", "cold"),
     Cfg("random", "B", "stale",     "shuffled", "sub",    "warm"),
-    Cfg("0",      "A", "unrelated", "natural",  "inproc", "warm"),
-    Cfg("0",      "B", "unrelated", "shuffled", "inproc", "cold") >>
+    Cfg("1",      "A", "unrelated", "shuffled", "inproc", "cold"),
+    Cfg("0",      "B", "unrelated", "natural",  "sub",    "warm") >>
 
 \* thorough: a pairwise covering array (every pair of values of two different dimensions occurs in some run)
 ThoroughPlan == <<
